@@ -9,6 +9,7 @@ CONSTANTS
   MaxData = 2
   MaxIx = 3
   MaxDepth = 2
+  CellMask = TRUE
   Valueless = TRUE
   Deviations = {}
 VIEW vw
